@@ -16,12 +16,33 @@ enum Sym {
     P(u8),
 }
 
-const SYMS: [Sym; 11] =
-    [Sym::LP, Sym::RP, Sym::Not, Sym::Comma, Sym::And, Sym::Or, Sym::P(0), Sym::P(1), Sym::P(2), Sym::P(3), Sym::P(4)];
+const SYMS: [Sym; 13] = [
+    Sym::LP,
+    Sym::RP,
+    Sym::Not,
+    Sym::Comma,
+    Sym::And,
+    Sym::Or,
+    Sym::P(0),
+    Sym::P(1),
+    Sym::P(2),
+    Sym::P(3),
+    Sym::P(4),
+    Sym::P(5),
+    Sym::P(6),
+];
 
-/// primaries: (keyword, argument value, argument is string-class)
-const PRIMS: [(&str, Option<&str>); 5] =
-    [("-true", None), ("-name", Some("x")), ("-perm", Some("u+x")), ("-printf", Some("%p\\n")), ("-uid", Some("+1"))];
+/// primaries: (keyword, argument value); the last two are option words, which stand where a
+/// primary may stand (leading, options-only and in-expression placements all occur)
+const PRIMS: [(&str, Option<&str>); 7] = [
+    ("-true", None),
+    ("-name", Some("x")),
+    ("-perm", Some("u+x")),
+    ("-printf", Some("%p\\n")),
+    ("-uid", Some("+1")),
+    ("-depth", None),
+    ("-threads", Some("3")),
+];
 
 fn tok(s: Sym) -> Tok {
     match s {
@@ -57,8 +78,8 @@ fn arg_spelling(k: u8, q: u8) -> String {
     let (_, arg) = PRIMS[k as usize];
     let a = arg.unwrap();
     match (k, q) {
-        // -uid takes a number: quoting is unspecified, never varied
-        (4, _) => a.to_string(),
+        // -uid and -threads take a number: quoting is unspecified, never varied
+        (4, _) | (6, _) => a.to_string(),
         // the format's canonical spelling is single-quoted; alternatives: double-quoted, bare
         (3, 0) => format!("'{a}'"),
         (3, 1) => format!("\"{a}\""),
@@ -194,9 +215,12 @@ fn deviations(base: &[Sym]) -> Vec<Dev> {
             }
             Sym::Or => d.push(Dev { kind: "or-as--or".into(), apply: (1, i, 1) }),
             Sym::P(k) => {
-                d.push(Dev { kind: "parens-spaced".into(), apply: (1, i, 1) });
-                d.push(Dev { kind: "parens-tight".into(), apply: (1, i, 2) });
-                d.push(Dev { kind: "parens-double".into(), apply: (1, i, 3) });
+                // parentheses around an option word are not insignificant: they end a leading run
+                if *k < 5 {
+                    d.push(Dev { kind: "parens-spaced".into(), apply: (1, i, 1) });
+                    d.push(Dev { kind: "parens-tight".into(), apply: (1, i, 2) });
+                    d.push(Dev { kind: "parens-double".into(), apply: (1, i, 3) });
+                }
                 match k {
                     1 | 2 => {
                         d.push(Dev { kind: "quote-single".into(), apply: (2, i, 1) });
@@ -212,8 +236,10 @@ fn deviations(base: &[Sym]) -> Vec<Dev> {
             _ => {}
         }
     }
-    d.push(Dev { kind: "whole-parens-spaced".into(), apply: (3, 0, 1) });
-    d.push(Dev { kind: "whole-parens-tight".into(), apply: (3, 0, 2) });
+    if !matches!(base.first(), Some(Sym::P(5)) | Some(Sym::P(6))) {
+        d.push(Dev { kind: "whole-parens-spaced".into(), apply: (3, 0, 1) });
+        d.push(Dev { kind: "whole-parens-tight".into(), apply: (3, 0, 2) });
+    }
     d
 }
 
@@ -300,6 +326,15 @@ fn judge(canon_in: &str, variant: &str, kinds: &[&str], acc: &mut Acc) {
 fn check_base(base: &Vec<Sym>, acc: &mut Acc) {
     let canon = canonical(base);
     let canon_in = render(base, &canon);
+    if base.iter().any(|s| matches!(s, Sym::P(5) | Sym::P(6))) {
+        // an option word next to an operator at the front of the input (`-depth -a -name x`) is
+        // not a sentence once the leading run is removed: only bases the text-level reference
+        // accepts take part
+        if !matches!(speclib::textspec::parse(&canon_in), speclib::textspec::Spec::Accept { .. }) {
+            acc.skip("base with an option word that the reference does not accept in that position");
+            return;
+        }
+    }
     let devs = deviations(base);
     acc.transitions += devs.len() as u64;
     // 0 deviations
@@ -370,7 +405,7 @@ pub fn run(ctx: &Ctx) -> i32 {
             level: "model_checking",
             exhaustive: true,
             rule: "state = (base sentence, set of spelling deviations); deviation-bounded exploration: 0, 1 and 2 simultaneous departures from the canonical spelling at every site with every value, plus all sites of one kind at once; distinct = distinct (options, tree) results".into(),
-            bound: format!("every grammar sentence of <= {n} symbols over 11 symbols (5 primaries); deviation bound 2; all 341 blank-only inputs of length 0..4"),
+            bound: format!("every grammar sentence of <= {n} symbols over 13 symbols (5 primaries and the option words -depth, -threads 3, so options-only and option-led inputs occur); deviation bound 2; all 341 blank-only inputs of length 0..4"),
             assumptions: vec![
                 "insignificant spelling = blanks (space, tab, CR, LF) between words and at the ends, -a/-and/juxtaposition, -o/-or, redundant parentheses (spaced or touching their operand), quoting style of string-class arguments".into(),
                 "quoting of numeric arguments is unspecified and never varied".into(),
